@@ -595,9 +595,12 @@ type monC12 struct {
 	inForce    map[int]pt.TableBlindState
 	h          *hist
 	lastUpdate *pt.TableBlindState // the last UpdateBlind applied while no hand was open
+	resolved   map[int]bool
 }
 
-func newMonC12(h *hist) *monC12 { return &monC12{inForce: map[int]pt.TableBlindState{}, h: h} }
+func newMonC12(h *hist) *monC12 {
+	return &monC12{inForce: map[int]pt.TableBlindState{}, h: h, resolved: map[int]bool{}}
+}
 
 func (m *monC12) Quiescent(td *TD, p Pending) *Viol {
 	for ; m.seenSnap < len(td.snaps); m.seenSnap++ {
@@ -611,7 +614,7 @@ func (m *monC12) Quiescent(td *TD, p Pending) *Viol {
 				if st.BlindState.IsBreaking() {
 					return &Viol{Key: "opened-on-break", Detail: fmt.Sprintf("hand %d opened while the blind level is a break", h)}
 				}
-				if want := m.h.curBlind; want != nil && *want != *st.BlindState {
+				if want := m.h.curBlind; want != nil && *want != *st.BlindState && m.h.openedUpdate[h] == nil {
 					return &Viol{Key: "update-lost", Detail: fmt.Sprintf("hand %d opened at %+v, the last blind update before it was %+v", h, *st.BlindState, *want)}
 				}
 			}
@@ -621,6 +624,15 @@ func (m *monC12) Quiescent(td *TD, p Pending) *Viol {
 				continue
 			}
 			meta := st.GameState.Meta
+			// an update made from inside the hand's own opened callback races the open itself: either level may be
+			// the one in force, but the hand must then stick to it
+			if u := m.h.openedUpdate[h]; u != nil && !m.resolved[h] {
+				m.resolved[h] = true
+				if meta.Ante == u.Ante && meta.Blind.SB == u.SB && meta.Blind.BB == u.BB && meta.Blind.Dealer == u.Dealer {
+					f = *u
+					m.inForce[h] = f
+				}
+			}
 			if meta.Ante != f.Ante || meta.Blind.Dealer != f.Dealer || meta.Blind.SB != f.SB || meta.Blind.BB != f.BB {
 				return &Viol{Key: "hand-blinds-differ", Detail: fmt.Sprintf("hand %d is played at ante %d blinds %+v, the level in force when it opened was %+v", h, meta.Ante, meta.Blind, f)}
 			}
